@@ -6,7 +6,7 @@
 //
 // Op language / observations: see lean/Cell2v/Driver/C02.lean.
 //
-//	reset nc=<k> | bind c=<i> to=<name|-> | reqs q=<c>,<id>,<route>,<pay>|… | adv | flush
+//	reset nc=<k> | bind c=<i> to=<name|-> | reqs q=<c>,<id>,<route>,<pay>|… | pipe c=<i> q=… | adv | flush
 //	obs: r=<c>:resp:<id>:<err>:<hex>,…  i=<svc>:<method>:<v>,…   (both sorted: multisets)
 package c02
 
@@ -231,6 +231,41 @@ func (w *world) exec(op string) string {
 		wg.Wait()
 		w.n.Wait()
 		return w.collect()
+	case "pipe":
+		// a NEW connection whose handshake, ack and first messages are read by the session's
+		// reader goroutine while the owner of the front is busy, i.e. BEFORE the posted
+		// AddSession has run (repaired defect D20: the envelope's SessionId must still be right)
+		i := hx.KVInt(ws, "c")
+		if i != len(w.clients) {
+			return "bad-op"
+		}
+		q, _ := hx.KV(ws, "q")
+		release := make(chan struct{})
+		w.n.RunOn("gate-1", func(ns *service.NodeService) { <-release }) // the owner is now occupied
+		c := w.n.Connect("gate-1")                                        // OnSessionCreate is posted, not run
+		early := c.NetId() == 0
+		ok := c.Open()
+		var frame []byte
+		for _, item := range strings.Split(q, "|") {
+			f := strings.Split(item, ",")
+			if len(f) != 4 {
+				continue
+			}
+			id, err := strconv.ParseUint(f[1], 10, 64)
+			if err != nil {
+				continue
+			}
+			frame = append(frame, c.Packet(&message.Message{Type: message.Request, ID: uint(id), Route: f[2], Data: payload(f[3])})...)
+		}
+		ok = c.SendRaw(frame) && ok
+		early = early && c.NetId() == 0 // still not registered after everything was read
+		close(release)
+		w.n.Wait()
+		w.clients = append(w.clients, c)
+		if !ok || !early {
+			return "bad-op"
+		}
+		return w.collect()
 	case "adv":
 		w.n.Advance(5 * time.Second)
 		return w.collect()
@@ -338,6 +373,30 @@ func (g *gen) item(nc int) string {
 	return fmt.Sprintf("%d,%d,%s,%s", c, id, g.route(), pay)
 }
 
+var pipeRoutes = []string{"hall.zoo.echo", "hall.zoo.echo", "hall.zoo.slow", "hall.zoo.tell", "hall.zoo.fail", "hall.zoo.late",
+	"gate.zoo.echo", "gate.zoo.slow", "gate.zoo.tell", "chat.zoo.echo", "room.zoo.echo", "hall.zoo.nosuch", "gate.zoo"}
+
+// a message of a pipelined new client c: request or notify, front-local (gate) or forwarded
+// (hall: no binding needed), a few unserviceable ones
+func (g *gen) pipeItem(c int) string {
+	r := g.h.R
+	if g.used[c] == nil {
+		g.used[c] = map[uint64]bool{}
+	}
+	var id uint64
+	if r.Intn(4) != 0 {
+		id = uint64(1 + r.Intn(1000000))
+		for g.used[c][id] {
+			id = uint64(1 + r.Intn(1000000))
+		}
+		g.used[c][id] = true
+	}
+	g.v++
+	rt := pipeRoutes[r.Intn(len(pipeRoutes))]
+	g.h.Count("pipe.route." + rt)
+	return fmt.Sprintf("%d,%d,%s,v%d", c, id, rt, g.v)
+}
+
 // one case: reset, then binds / request bursts / time steps, then flush
 func (g *gen) genCase() []string {
 	r := g.h.R
@@ -353,6 +412,18 @@ func (g *gen) genCase() []string {
 	}
 	steps := 3 + r.Intn(8)
 	for i := 0; i < steps; i++ {
+		if nc < 5 && r.Intn(16) == 0 {
+			// a new client pipelines its first messages behind the handshake while the front is busy
+			n := 1 + r.Intn(4)
+			items := make([]string, n)
+			for j := range items {
+				items[j] = g.pipeItem(nc)
+			}
+			g.h.Count("pipe")
+			ops = append(ops, fmt.Sprintf("pipe c=%d q=%s", nc, strings.Join(items, "|")))
+			nc++
+			continue
+		}
 		switch k := r.Intn(100); {
 		case k < 15:
 			b := bindings[r.Intn(len(bindings))]
